@@ -1,5 +1,6 @@
 mod abi;
 mod breadcrumb;
+mod c07conv;
 mod c08life;
 mod c10;
 mod c12;
